@@ -445,6 +445,7 @@ Proof.
   - destruct (_ && _); [|exact H]. apply AccInv_k_udp_send, H.
   - apply AccInv_k_deliver, H.
   - apply AccInv_k_egress, H.
+  - eapply AccInv_same; [| | | |exact H]; reflexivity.
 Qed.
 
 (* everything known about a reachable host-with-application *)
@@ -1102,6 +1103,10 @@ Proof.
         unfold is_dgram. rewrite L, A, (has_tcb_b_of _ _ _ L), B. reflexivity.
       - unfold is_dgram. rewrite L. cbn [andb]. unfold k_udp_send. rewrite L. cbn [fst]. rewrite <- Ek. apply okern_eta. }
     destruct (k_udp_send k fd pl) as [k1 [|u|er]]; exact R.
+  - (* ESetIsn *)
+    nolog logs. destruct (get_host w h) as [k|] eqn:G; [|exact W].
+    apply (WI_konly c v w logs h k (set_isn k v0) (OSetIsn v0)); try assumption; [apply fr_same; reflexivity|].
+    intros o _ Ek _. cbn [ostep]. rewrite Ek. reflexivity.
 Qed.
 
 (* ------------------------------------------------------------------ *)
